@@ -90,16 +90,60 @@ def log_so_far(t):
         return ""
 
 
+def _socket_inodes(pid):
+    out = set()
+    try:
+        for fd in os.listdir("/proc/%d/fd" % pid):
+            try:
+                ln = os.readlink("/proc/%d/fd/%s" % (pid, fd))
+            except OSError:
+                continue
+            if ln.startswith("socket:["):
+                out.add(ln[8:-1])
+    except OSError:
+        pass
+    return out
+
+
+def owns_listener(t):
+    """Is it THIS process that listens on the address the harness chose?  Decided from the kernel's tables
+    (/proc/net/tcp*, /proc/net/unix against the socket inodes of the process), never from log wording."""
+    mine = _socket_inodes(t.p.pid)
+    if not mine:
+        return False
+    try:
+        if t.listen.startswith("unix:"):
+            path = t.listen[5:]
+            for ln in open("/proc/net/unix").read().splitlines()[1:]:
+                f = ln.split()
+                if len(f) >= 8 and f[7] == path and f[6] in mine:
+                    return True
+            return False
+        port = int(t.listen.rsplit(":", 1)[1])
+        for tab in ("/proc/net/tcp", "/proc/net/tcp6"):
+            try:
+                rows = open(tab).read().splitlines()[1:]
+            except OSError:
+                continue
+            for ln in rows:
+                f = ln.split()
+                if len(f) > 9 and f[3] == "0A" and int(f[1].rsplit(":", 1)[1], 16) == port and f[9] in mine:
+                    return True
+    except (OSError, ValueError):
+        pass
+    return False
+
+
 def wait_own(t, timeout=20.0):
     """`Tacd.wait_listening`, but only satisfied by THIS tacd: the port the harness chose is not held while
     tacd makes its key (seconds for RSA-4096), so another server — of this very run — may be given the same
-    port and answer there first.  tacd logs "starting tacd on <address>" after the certificate was made and
-    right before it binds; if the bind then fails tacd exits (see `port_retry`)."""
+    port and answer there first.  Whether it is this process that listens is read from the kernel's socket
+    tables (`owns_listener`); if the bind fails tacd exits (see `port_retry`)."""
     t0 = time.time()
     while time.time() - t0 < timeout:
         if t.p.poll() is not None:
             return False
-        if "starting tacd on" in log_so_far(t) and t.wait_listening(timeout=0.5):
+        if owns_listener(t) and t.wait_listening(timeout=0.5):
             time.sleep(0.05)
             # gone already?  Only a lost race for the port is the harness's business (False -> `port_retry`);
             # a tacd that dies of the probe connection itself has started, and the history will show it dead
